@@ -274,6 +274,13 @@ KERNELS = [
                  "crossover_func": ("crossFn", ["individs", "fitness", "rank"], ["Mat", "Arr", "Arr"]),
                  "mutation_func": ("mutFn", ["individual", "proba"], ["Arr", "Int"]),
                  "self._choice_parent": ("parentFn", ["fitness_i_selected"], ["Arr"], "Int")}),
+    # ---- SHADE: the per-individual parameters are generated from ONE memory cell r_i (same cell for F and CR); randc01 / randn01 are
+    #      function parameters of their argument and the call's ordinal; the memory-cell rule "no successes -> copy the old value"
+    dict(name="SHADE_generate_F_CR", file="optimizers/_shade.py", cls="SHADE", func="_generate_F_CR", params=[], ret="Mat", streams=True,
+         self_attrs={"_pop_size": ("pop_size", "Int"), "_H_size": ("H_size", "Int"), "_H_F": ("H_F", "Arr"), "_H_CR": ("H_CR", "Arr")},
+         opaque_fn={"randc01": ("randcFn", ["Int"]), "randn01": ("randnFn", ["Int"])}),
+    dict(name="SHADE_update_u_F", file="optimizers/_shade.py", cls="SHADE", func="_update_u_F", params=[("u_F", "Int"), ("S_F", "Arr")], ret="Int", normalise_returns=True,
+         opaque_fn={"lehmer_mean": ("lehmerFn", ["Arr"])}),
     dict(name="tournament_selection", file="utils/selections.py", func="tournament_selection",
          params=[("fitness", "Arr"), ("rank", "Arr"), ("tour_size", "Int"), ("quantity", "Int")], ret="Arr",
          ext_fn={"random_sample": ("sampler", ["range_size", "quantity", "replace"])}),
@@ -290,7 +297,7 @@ LTY = {"Int": "Int", "Arr": "List Int", "Bool": "Bool", "Mat": "List (List Int)"
        "ArrSelf": "List (List Int)"}
 TREE_ATTR = {"_nodes": "nodes", "_n_args": "nargs"}
 DEFAULT = {"Int": "0", "Arr": "[]", "Bool": "false", "Mat": "[]"}
-RESERVED = ("parentFn", "tourFn", "flipFn", "fittestFn", "newProbaFn", "choiceFn", "linspaceFn", "selFn", "mutFn", "donorFn", "crossFn", "repairFn", "_", "shuffler", "grower", "sampler", "wsampler", "end", "at", "from", "to", "in", "do", "then", "fun", "match", "with", "open", "by", "s", "us", "ns", "fuel", "rolls", "max", "min", "hi0", "samples", "self", "self_nodes", "self_nargs", "log", "stops", "kb", "value_ext", "tree")
+RESERVED = ("randcFn", "randnFn", "lehmerFn", "parentFn", "tourFn", "flipFn", "fittestFn", "newProbaFn", "choiceFn", "linspaceFn", "selFn", "mutFn", "donorFn", "crossFn", "repairFn", "_", "shuffler", "grower", "sampler", "wsampler", "end", "at", "from", "to", "in", "do", "then", "fun", "match", "with", "open", "by", "s", "us", "ns", "fuel", "rolls", "max", "min", "hi0", "samples", "self", "self_nodes", "self_nargs", "log", "stops", "kb", "value_ext", "tree")
 
 
 class NotRecognised(Exception):
@@ -834,8 +841,12 @@ class Tr:
     @staticmethod
     def is_randint1(e):
         """randint(lo, hi, 1)[0]"""
-        return (isinstance(e, ast.Subscript) and isinstance(e.slice, ast.Constant) and e.slice.value == 0 and isinstance(e.value, ast.Call)
-                and callname(e.value.func) == "randint" and len(e.value.args) == 3 and isinstance(e.value.args[2], ast.Constant) and e.value.args[2].value == 1)
+        if not (isinstance(e, ast.Subscript) and isinstance(e.slice, ast.Constant) and e.slice.value == 0 and isinstance(e.value, ast.Call)
+                and callname(e.value.func) == "randint"):
+            return False
+        c = e.value
+        size = c.args[2] if len(c.args) == 3 else next((k.value for k in c.keywords if k.arg == "size"), None)
+        return len(c.args) + len(c.keywords) == 3 and len(c.args) >= 2 and isinstance(size, ast.Constant) and size.value == 1
 
     @staticmethod
     def is_uniform1(e):
@@ -1632,6 +1643,28 @@ def translate(repo: Path, cfg: dict) -> str:
         elts = [ast.List(elts=[kw[n] for n in g], ctx=ast.Load()) if isinstance(g, list) else kw[g] for g in shape]
         body = fn.body[:-1] + [ast.Return(value=ast.List(elts=elts, ctx=ast.Load()))]
         fn = ast.FunctionDef(name=fn.name, args=fn.args, body=body, decorator_list=[], returns=None, type_comment=None)
+        ast.fix_missing_locations(fn)
+    def norm(stmts):
+        """`if c: <...; return x>` followed by more statements  ==>  `if c: <...; return x> else: <the rest>`"""
+        out = []
+        for k, st in enumerate(stmts):
+            if isinstance(st, ast.If):
+                st = ast.If(test=st.test, body=norm(st.body), orelse=norm(st.orelse))
+                if not st.orelse and st.body and always_returns(st.body) and stmts[k + 1:]:
+                    st.orelse = norm(stmts[k + 1:])
+                    out.append(st)
+                    return out
+            out.append(st)
+        return out
+
+    def always_returns(stmts):
+        last = stmts[-1]
+        if isinstance(last, (ast.Return, ast.Raise)):
+            return True
+        return isinstance(last, ast.If) and bool(last.orelse) and always_returns(last.body) and always_returns(last.orelse)
+
+    if cfg.get("normalise_returns"):
+        fn = ast.FunctionDef(name=fn.name, args=fn.args, body=norm(fn.body), decorator_list=[], returns=None, type_comment=None)
         ast.fix_missing_locations(fn)
     return Tr(fn, cfg).render()
 
